@@ -53,6 +53,10 @@ pub fn gen(seed: u64, tier: Tier) -> ScenarioSpec {
         }
         spec.stream.hard_error_kind = rng.below(6) as u8;
     }
+    if rng.chance(1, 2) {
+        // after a dropped connection the client reconnects and resumes from bytes_read()
+        spec.knobs.insert("resume".into(), 1);
+    }
     spec.knobs.insert("recheck_every".into(), *rng.pick(&[0i64, 0, 7, 50]));
     spec
 }
